@@ -672,6 +672,43 @@ func (g *Gen) scenario(t *rapid.T, w *World) bool {
 	line := func(s *SessInfo, data string) {
 		script = append(script, Entry{Kind: "irc", Session: s.Id, Data: data, Addr: s.RemoteAddr})
 	}
+	// rebirth: what a channel held for somebody (an invitation, a ban, a key) must end with the
+	// channel: the outsider is invited (or banned), every member leaves, somebody re-creates the
+	// name, restricts it, and the outsider joins
+	if len(ch.Members) <= 3 && coin(t, "screbirth", 1, 4) {
+		var members []*SessInfo
+		for _, m := range ch.Members {
+			ms := w.nickOwner(NickLower(m))
+			if ms == nil || ms.Server || ms.Reply != 0 {
+				return false
+			}
+			members = append(members, ms)
+		}
+		switch pickW(t, "screbirthleft", 4, 1, 1) {
+		case 0:
+			line(op, "INVITE "+out.Nick+" "+ch.Name)
+		case 1:
+			line(op, "MODE "+ch.Name+" +b "+out.Nick+"!*@*")
+		case 2:
+			line(op, "MODE "+ch.Name+" +k oldkey")
+		}
+		for _, ms := range members {
+			line(ms, "PART "+ch.Name)
+		}
+		founder := members[rapid.IntRange(0, len(members)-1).Draw(t, "screbirthfounder")]
+		line(founder, "JOIN "+ch.Name)
+		for _, r := range pick(t, "screbirthrestr", []string{"i", "x", "i", "ik", ""}) {
+			switch r {
+			case 'i', 'x':
+				line(founder, "MODE "+ch.Name+" +"+string(r))
+			case 'k':
+				line(founder, "MODE "+ch.Name+" +k newkey")
+			}
+		}
+		line(out, "JOIN "+ch.Name+pick(t, "screbirthkey", []string{"", "", " oldkey", " newkey"}))
+		g.pending = append(script, g.pending...)
+		return true
+	}
 	restr := pick(t, "screstr", []string{"i", "k", "x", "b", "ik", "xk", "xb", "ib", "kb", "xi", "", "is", "xs", "in"})
 	for _, r := range restr {
 		switch r {
